@@ -1357,6 +1357,125 @@ theorem symStep_inv (fuel i : Nat) (e : Engine M) (inputs : List (List Candle)) 
         · rw [List.getElem_set_ne (by omega)]; exact hin j hj'
     · left; exact close_fold_err sym i _ _ e2 herr
 
+/-! ### the whole run of the normal simulator (single-symbol sessions): `StoreInv` after every iteration -/
+
+theorem EInv.of_same {e e' : Engine M} {sym : Nat} {t0 : Int} {rows : List Candle} (h : StoreFrame.SSame e e')
+    (hi : EInv e sym t0 rows) : EInv e' sym t0 rows := by
+  obtain ⟨h1, h2⟩ := h
+  have hst : storeOf e' sym = storeOf e sym := by unfold storeOf; rw [h1]
+  exact ⟨by rw [h1]; exact hi.hs, by rw [hst]; exact hi.short, hi.spaced, by rw [hst, h2]; exact hi.inv⟩
+
+/-- the route step of an iteration does nothing on a run that has been stopped by an error (the flag stays set) -/
+theorem routesStep_err (fuel : Nat) (e : Engine M) (i b : Nat) (h : e.err.isSome) :
+    (routesStep u fuel e i b).err.isSome := by
+  unfold routesStep
+  dsimp only
+  have h2 : ((List.range e.cfg.routes.length).foldl (fun (e : Engine M) r =>
+      if e.err.isSome then e else
+      { (if (routeOf e r).tf = 1 ∨ b % (routeOf e r).tf = 0 then executeStrategy u fuel e r else e) with
+        w := Acc.updateActive (if (routeOf e r).tf = 1 ∨ b % (routeOf e r).tf = 0 then executeStrategy u fuel e r else e).w (routeOf e r).sym }) e) = e := by
+    generalize List.range e.cfg.routes.length = l
+    induction l with
+    | nil => rfl
+    | cons r rest ih => simp only [List.foldl_cons, h, if_true]; exact ih
+  rw [h2]
+  have h3 : (executePendingMarketOrders u fuel e).err.isSome := by
+    unfold executePendingMarketOrders
+    split
+    · exact h
+    · cases fuel with
+      | zero => unfold executePendingMarketOrders.go; unfold fail; rw [if_pos h]; exact h
+      | succ f => unfold executePendingMarketOrders.go; rw [if_pos h]; exact h
+  split
+  · exact h3
+  · exact h3
+
+/-- ONE ITERATION OF THE NORMAL SIMULATOR (single-symbol session, any number of timeframes, every strategy): from
+    `EInv` with the first `i` rows to `EInv` with the first `i + 1` rows, or the run has been stopped by an error. -/
+theorem stepAt_inv (fuel i : Nat) (e : Engine M) (inputs : List (List Candle)) (t0 : Int)
+    (hn : e.cfg.nsym = 1) (hal : AlignedCfg e.cfg 0 t0)
+    (hin : ∀ j (h : j < (inputs.getD 0 []).length), (inputs.getD 0 [])[j].ts = t0 + 60000 * (j : Int))
+    (hil : i < (inputs.getD 0 []).length)
+    (hi : EInv e 0 t0 ((inputs.getD 0 []).take i)) :
+    (stepAt u fuel inputs e i).1.err.isSome ∨
+    (EInv (stepAt u fuel inputs e i).1 0 t0 (((stepAt u fuel inputs e i).2.getD 0 []).take (i + 1)) ∧
+     (stepAt u fuel inputs e i).1.cfg = e.cfg ∧
+     ((stepAt u fuel inputs e i).2.getD 0 []).length = (inputs.getD 0 []).length ∧
+     ∀ j (h : j < ((stepAt u fuel inputs e i).2.getD 0 []).length),
+       ((stepAt u fuel inputs e i).2.getD 0 [])[j].ts = t0 + 60000 * (j : Int)) := by
+  unfold stepAt
+  dsimp only
+  split
+  · left; assumption
+  · rw [hn]
+    simp only [List.range_one, List.foldl_cons, List.foldl_nil]
+    have hs0 : StoreFrame.SSame e { e with time := ((((inputs.getD 0 [])[i]?).map (·.ts)).getD 0) + 60000 } := ⟨rfl, rfl⟩
+    have h := symStep_inv u fuel i { e with time := ((((inputs.getD 0 [])[i]?).map (·.ts)).getD 0) + 60000 } inputs 0 t0 hal hin hil
+      (EInv.of_same hs0 hi)
+    rcases h with herr | ⟨h1, h2, h3, h4⟩
+    · left; exact routesStep_err u fuel _ i (i + 1) herr
+    · right
+      have hs := StoreFrame.routesStep_ss u fuel
+        (symStep u fuel i ({ e with time := ((((inputs.getD 0 [])[i]?).map (·.ts)).getD 0) + 60000 }, inputs) 0).1 i (i + 1)
+      exact ⟨EInv.of_same hs h1, by rw [hs.2]; exact h2, h3, h4⟩
+
+/-- THE RUN (normal simulator, single-symbol session, every timeframe of the symbol, EVERY strategy): if the session
+    starts on a boundary of every timeframe, the input minutes are evenly spaced and the store starts empty with the
+    invariant, then after each of the first `n` iterations the stored 1m rows are the first `n` normalised input rows and
+    every bigger timeframe satisfies `StoreInv` — hence (`get_candles_spec`, `get_current_candle_spec`) a reader gets
+    exactly one candle per started window, each the aggregate of its minutes — or the run has been stopped by an error. -/
+theorem runStepN_inv (fuel : Nat) (inputs : List (List Candle)) (e : Engine M) (t0 : Int)
+    (hn : e.cfg.nsym = 1) (hal : AlignedCfg e.cfg 0 t0)
+    (hin : ∀ j (h : j < (inputs.getD 0 []).length), (inputs.getD 0 [])[j].ts = t0 + 60000 * (j : Int))
+    (hi : EInv e 0 t0 []) :
+    ∀ n, n ≤ (inputs.getD 0 []).length →
+      (runStepN u fuel inputs e n).1.err.isSome ∨
+      (EInv (runStepN u fuel inputs e n).1 0 t0 (((runStepN u fuel inputs e n).2.getD 0 []).take n) ∧
+       (runStepN u fuel inputs e n).1.cfg = e.cfg ∧
+       ((runStepN u fuel inputs e n).2.getD 0 []).length = (inputs.getD 0 []).length ∧
+       ∀ j (h : j < ((runStepN u fuel inputs e n).2.getD 0 []).length),
+         ((runStepN u fuel inputs e n).2.getD 0 [])[j].ts = t0 + 60000 * (j : Int)) := by
+  intro n
+  induction n with
+  | zero =>
+    intro _
+    right
+    unfold runStepN
+    simp only [List.range_zero, List.foldl_nil, List.take_zero]
+    have hs : StoreFrame.SSame e (saveDaily { e with time := (((inputs.getD 0 [])[0]?).map (·.ts)).getD 0 }) :=
+      StoreFrame.SSame.trans (⟨rfl, rfl⟩ : StoreFrame.SSame e { e with time := (((inputs.getD 0 [])[0]?).map (·.ts)).getD 0 })
+        (StoreFrame.saveDaily_ss _)
+    refine ⟨EInv.of_same hs hi, hs.2, ?_, hin⟩
+    first | trivial | rfl
+  | succ k ih =>
+    intro hk
+    have hstep : runStepN u fuel inputs e (k + 1) =
+        stepAt u fuel (runStepN u fuel inputs e k).2 (runStepN u fuel inputs e k).1 k := by
+      unfold runStepN
+      rw [List.range_succ, List.foldl_append]
+      rfl
+    rw [hstep]
+    rcases ih (by omega) with herr | ⟨h1, h2, h3, h4⟩
+    · left
+      unfold stepAt
+      rw [if_pos herr]; exact herr
+    · have := stepAt_inv u fuel k (runStepN u fuel inputs e k).1 (runStepN u fuel inputs e k).2 t0
+        (by rw [h2]; exact hn) (by rw [h2]; exact hal) h4 (by rw [h3]; omega) h1
+      rcases this with herr | ⟨g1, g2, g3, g4⟩
+      · left; exact herr
+      · right; exact ⟨g1, by rw [g2, h2], by rw [g3, h3], g4⟩
+
+/-- the premise of `runStepN_inv` is met by every fresh single-symbol engine: an empty store satisfies the invariant -/
+theorem init_inv (cfg : Cfg) (kind : Acc.Kind) (balance fee leverage : Rat) (m0 : M) (t0 : Int) (hn : cfg.nsym = 1) :
+    EInv (initEngine cfg kind balance fee leverage m0) 0 t0 [] := by
+  have hst : storeOf (initEngine cfg kind balance fee leverage m0) 0 = {} := by
+    unfold storeOf initEngine; simp [hn]
+  refine ⟨by unfold initEngine; simp [hn], by rw [hst], fun j h => absurd h (by simp), ?_⟩
+  intro m _
+  rw [hst]
+  refine ⟨[], ?_, Or.inl rfl⟩
+  simp [longOf, visible, AggLemmas.windows_nil]
+
 end run
 
 end C07
